@@ -133,6 +133,7 @@ impl<'key> Argon2<'key> {
         if salt.len() < Params::MIN_SALT_LEN {
             return Err(Error::SaltTooShort);
         }
+        vmodel::kdf_entry_guard();
         unsafe {
             LAST_CALL = (self.params.m_cost, self.params.t_cost, self.params.p_cost, self.alg as u8, self.ver as u8);
             CALLS += 1;
